@@ -738,6 +738,7 @@ class _GzipMessageDelegate(httputil.HTTPMessageDelegate):
         self._max_body_size = max_body_size
         self._decompressed_body_size = 0
         self._decompressor: GzipDecompressor | None = None
+        self._compressed_data_received = False
 
     def headers_received(
         self,
@@ -746,6 +747,7 @@ class _GzipMessageDelegate(httputil.HTTPMessageDelegate):
     ) -> Awaitable[None] | None:
         # A new message (e.g. the response after a 1xx) starts afresh.
         self._decompressor = None
+        self._compressed_data_received = False
         if headers.get("Content-Encoding", "").lower() == "gzip":
             self._decompressor = GzipDecompressor()
             # Downstream delegates will only see uncompressed data,
@@ -758,6 +760,8 @@ class _GzipMessageDelegate(httputil.HTTPMessageDelegate):
     async def data_received(self, chunk: bytes) -> None:
         if self._decompressor:
             compressed_data = chunk
+            if chunk:
+                self._compressed_data_received = True
             while compressed_data:
                 try:
                     decompressed = self._decompressor.decompress(
@@ -797,6 +801,11 @@ class _GzipMessageDelegate(httputil.HTTPMessageDelegate):
                 raise ValueError(
                     "decompressor.flush returned data; possible truncated input"
                 )
+            if (
+                self._compressed_data_received
+                and not self._decompressor.decompressobj.eof
+            ):
+                raise httputil.HTTPInputError("truncated gzip body")
         return self._delegate.finish()
 
     def on_connection_close(self) -> None:
